@@ -53,7 +53,8 @@ def gen_data(rng, tz):
     with_obs = rng.random() < 0.7
     meter = None
     if with_obs:
-        reads, tcur = [], start
+        # the first read may come well after the weather starts (leading periods without observed/predicted)
+        reads, tcur = [], start + pd.Timedelta(days=rng.choice([0, 0, 0, 17, 31, 45, 62]))
         while tcur <= idx[-1]:
             reads.append(tcur)
             tcur = tcur + pd.Timedelta(days=rng.choice([27, 29, 30, 31, 33]))
